@@ -7,11 +7,20 @@
 //   PREFILL k > 0 (OP 0 only): the caller's maps already translate one state of A / one state of B (one bit each whether, the
 //      state itself symbolic) to a symbolic number < k
 //   ALIAS 1 (NA == NB): B is A and the library object b is a copy of a (shares its storage); no separate bits for B
-// Order of the checks: result decodable (1) -> language semantics (20..22, independent macro-state oracle) -> translation
-// maps (2..12) -> exact shape of the result w.r.t. the maps (13) -> operands unchanged (30..33).
+// The result is never decoded through its state NUMBERS (how the library numbers the states of a union / product is not
+// part of the contract): with MAPS=1 it is decoded through the translation maps the library reports (abstract state i of
+// the reference disjoint union / full product is the library state the map gives for it; a rule or final state of the
+// result that uses a state no map entry names is "not decodable", id 1 = "the maps name every state of the result"); with
+// MAPS=0 and for UnionDisjointStates (no maps) through a slot table of the distinct state numbers (decode_free.h).
+// Order of the checks: result decodable / every state named (1) -> language semantics (20..22, independent macro-state
+// oracle) -> translation maps (2..12) -> the result is a sub-automaton of the named reference construction (13) ->
+// operands unchanged (30..33).  What only the CURRENT implementation guarantees (dense numbering, a map entry for every
+// operand state even if a trimming implementation would drop it, the result being the COMPLETE image rule for rule) is
+// kept under STRICT_IMPL, which is never defined by the registry.
 #include <vata/explicit_tree_aut.hh>
 #include "universe.h"
 #include "decode.h"
+#include "decode_free.h"
 using namespace VATA;
 #ifndef NA
 #define NA 1
@@ -31,23 +40,41 @@ using namespace VATA;
 #ifndef ALIAS
 #define ALIAS 0
 #endif
-enum { NONE = 0xFFFF };
+static const unsigned long NONE = ~0ul;     // "no entry" (never a state number)
 #if OP <= 1
-enum { NR = NA + NB + (PREFILL ? PREFILL - 1 : 0) };   // a fresh counter that avoids the pre-entered numbers never has to go beyond this
+enum { NR = NA + NB };      // abstract states of the result: those of the reference disjoint union
+enum { NDENSE = NA + NB + (PREFILL ? PREFILL - 1 : 0) };   // STRICT_IMPL only: a fresh counter that avoids the pre-entered numbers stays below this
 #else
-enum { NR = NA * NB };
+enum { NR = NA * NB };      // abstract states of the result: those of the reference full product
+enum { NDENSE = NA * NB };
 #endif
 typedef U::SymAut<NA> SA; typedef U::SymAut<NB> SB; typedef U::SymAut<NR> SR; typedef U::SymAut<NA + NB> SAB; typedef U::SymAut<NA * NB> SP;
 
-// read a state -> state map into arrays over the keys < N; false if a key outside occurs
-template <unsigned N> static bool readMap(const AutBase::StateToStateMap& m, bool* has, unsigned* val)
+// read a state -> state map into arrays over the keys < N; false if a key outside occurs (a key that is no operand state)
+template <unsigned N> static bool readMap(const AutBase::StateToStateMap& m, bool* has, unsigned long* val)
 {
   bool ok = true;
   for (unsigned s = 0; s < N; ++s) { has[s] = false; val[s] = NONE; }
   for (const auto& kv : m) { bool in = false;
-    for (unsigned s = 0; s < N; ++s) { bool e = (kv.first == s); has[s] = has[s] | e; val[s] = e ? (unsigned)kv.second : val[s]; in = in | e; }
-    ok = ok & in & (kv.second < NONE); }
+    for (unsigned s = 0; s < N; ++s) { bool e = (kv.first == s); has[s] = has[s] | e; val[s] = e ? (unsigned long)kv.second : val[s]; in = in | e; }
+    ok = ok & in; }
   return ok;
+}
+// R is a sub-automaton of the reference construction X (same abstract states): every rule / final state of R is one of X
+template <unsigned N> static bool subAut(const U::SymAut<N>& R, const U::SymAut<N>& X)
+{
+  bool sub = true;
+  for (unsigned i = 0; i < R.nrules; ++i) sub = sub & (!R.pres[i] | X.pres[i]);
+  for (unsigned s = 0; s < N; ++s) sub = sub & (!R.fin[s] | X.fin[s]);
+  return sub;
+}
+// each state of the result is named by ONE abstract state: no two abstract states that occur in the decoded result share a name
+// (id: 10 both in A / any two pairs, 11 both in B, 12 one in A and one in B)
+template <unsigned N> static void checkNamesDistinct(const U::SymAut<N>& R, const unsigned long* names, unsigned split)
+{
+  const unsigned usedR = U::usedStates(R);
+  for (unsigned s = 0; s < N; ++s) for (unsigned t = s + 1; t < N; ++t) { bool both = ((usedR >> s) & 1) & ((usedR >> t) & 1);
+    if (t < split) CHECK(!both || names[s] != names[t], 10); else if (s >= split) CHECK(!both || names[s] != names[t], 11); else CHECK(!both || names[s] != names[t], 12); }
 }
 // L(R) = L(A) u L(B): both operands included in R, R included in the mask-level disjoint union AB
 static void checkUnionLanguage(const SA& A, const SB& B, const SAB& AB, const SR& R)
@@ -97,7 +124,7 @@ extern "C" void harness(void)
 #else
   B.build(b);
 #endif
-  const unsigned usedA = U::usedStates(A), usedB = U::usedStates(B);
+  const unsigned usedA = U::usedStates(A), usedB = U::usedStates(B); (void)usedA; (void)usedB;
   SR R;
 
 #if OP == 0   // ------------------------------------------------------------------ Union
@@ -109,46 +136,56 @@ extern "C" void harness(void)
 #endif
 #if MAPS
   ExplicitTreeAut res = ExplicitTreeAut::Union(a, b, &mL, &mR);
+  bool hasL[NA], hasR[NB]; unsigned long valL[NA], valR[NB];
+  const bool keysL = readMap<NA>(mL, hasL, valL), keysR = readMap<NB>(mR, hasR, valR);
+  // abstract state i < NA of the disjoint union is named mL[i], abstract state NA + j is named mR[j]
+  unsigned long names[NR]; for (unsigned s = 0; s < NA; ++s) names[s] = hasL[s] ? valL[s] : NONE; for (unsigned s = 0; s < NB; ++s) names[NA + s] = hasR[s] ? valR[s] : NONE;
+  CHECK((U::decode<NR>(res, R, names)), 1);          // every rule / final state of the result is over states the maps name (and universe symbols)
 #else
   ExplicitTreeAut res = ExplicitTreeAut::Union(a, b);
+  U::Slots<NR> slots; CHECK((U::decodeFree<NR>(res, R, slots)), 1);   // at most NA + NB distinct states, any numbering
 #endif
-  CHECK((U::decode<NR>(res, R)), 1);
   checkUnionLanguage(A, B, AB, R);
 #if MAPS
-  bool hasL[NA], hasR[NB]; unsigned valL[NA], valR[NB];
-  CHECK((readMap<NA>(mL, hasL, valL)), 2); CHECK((readMap<NB>(mR, hasR, valR)), 3);
-  // the maps translate exactly the states that occur in the operand (+ what the caller had entered), to numbers < NR
+  CHECK(keysL, 2); CHECK(keysR, 3);                   // the maps translate operand states only
+#if PREFILL
+  // what the caller had entered is kept (in/out dictionary)
+  for (unsigned s = 0; s < NA; ++s) CHECK(!(preL && s == preLs) || (hasL[s] && valL[s] == preLv), 4);
+  for (unsigned s = 0; s < NB; ++s) CHECK(!(preR && s == preRs) || (hasR[s] && valR[s] == preRv), 7);
+#endif
+  // no two operand states share a state of the result: the union is disjoint
+  checkNamesDistinct<NR>(R, names, NA);
+  // every rule / final state of the result is the image (under mL resp. mR) of a rule / final state of the operand whose
+  // states name it.  NOT demanded: that every operand rule is present (the language checks 20..22 decide what must be
+  // there; an implementation that leaves out useless rules or rule-less final states is as correct).
+  { SAB X = AB;
+#ifdef VS_SELFTEST_2
+    X.pres[0] = false;           // seeded wrong expectation: the first rule of A is declared foreign
+#endif
+    CHECK((subAut<NR>(R, X)), 13); }
+#ifdef STRICT_IMPL   // never defined: details of the current implementation (rename everything, number densely)
   for (unsigned s = 0; s < NA; ++s) { bool pre = false;
 #if PREFILL
-    pre = preL && s == preLs; CHECK(!pre || valL[s] == preLv, 4);
+    pre = preL && s == preLs;
 #endif
-    CHECK(hasL[s] == (((usedA >> s) & 1) || pre), 5); CHECK(!hasL[s] || valL[s] < NR, 6); }
+    CHECK(hasL[s] == (((usedA >> s) & 1) || pre), 5); CHECK(!hasL[s] || valL[s] < NDENSE, 6); }
   for (unsigned s = 0; s < NB; ++s) { bool pre = false;
 #if PREFILL
-    pre = preR && s == preRs; CHECK(!pre || valR[s] == preRv, 7);
+    pre = preR && s == preRs;
 #endif
-    CHECK(hasR[s] == (((usedB >> s) & 1) || pre), 8); CHECK(!hasR[s] || valR[s] < NR, 9); }
-  // no two operand states share a result state: the union is disjoint
-  for (unsigned s = 0; s < NA; ++s) for (unsigned t = s + 1; t < NA; ++t) CHECK(!(hasL[s] && hasL[t]) || valL[s] != valL[t], 10);
-  for (unsigned s = 0; s < NB; ++s) for (unsigned t = s + 1; t < NB; ++t) CHECK(!(hasR[s] && hasR[t]) || valR[s] != valR[t], 11);
-  for (unsigned s = 0; s < NA; ++s) for (unsigned t = 0; t < NB; ++t) CHECK(!(hasL[s] && hasR[t]) || valL[s] != valR[t], 12);
-  // the result is exactly the image of A under mL together with the image of B under mR (so every result state is named)
-  { SR E; U::clear(E); U::imageAdd<NA, NR>(A, valL, E); U::imageAdd<NB, NR>(B, valR, E);
-#ifdef VS_SELFTEST_2
-    E.pres[0] = false;           // seeded wrong expectation
+    CHECK(hasR[s] == (((usedB >> s) & 1) || pre), 8); CHECK(!hasR[s] || valR[s] < NDENSE, 9); }
+  CHECK((U::sameAut<NR>(R, AB)), 13);
 #endif
-    CHECK((U::sameAut<NR>(R, E)), 13); }
 #endif
 #elif OP == 1 // ------------------------------------------------------------------ UnionDisjointStates
   SAB AB; U::disjointUnion<NA, NB>(A, B, AB);
   ExplicitTreeAut res = ExplicitTreeAut::UnionDisjointStates(a, b);
-  CHECK((U::decode<NR>(res, R)), 1);
+  // no translation map is reported and only the language is specified: decoded up to the numbering of the states
+  U::Slots<NR> slots; CHECK((U::decodeFree<NR>(res, R, slots)), 1);   // at most NA + NB distinct states
   checkUnionLanguage(A, B, AB, R);
-  { bool same = U::sameAut<NR>(R, AB);     // no renaming at all: rule for rule the two operands
-#ifdef VS_SELFTEST_2
-    same = same && !R.pres[0];
+#ifdef STRICT_IMPL   // never defined: the current implementation keeps the operands' numbers and copies rule for rule
+  { SR Rid; CHECK((U::decode<NR>(res, Rid)), 1); CHECK((U::sameAut<NR>(Rid, AB)), 13); }
 #endif
-    CHECK(same, 13); }
 #else         // ------------------------------------------------------------------ Intersection / IntersectionBU
   SP P; U::fullProduct<NA, NB>(A, B, P);
   AutBase::ProductTranslMap pm;
@@ -162,30 +199,36 @@ extern "C" void harness(void)
 #else
   ExplicitTreeAut res = ExplicitTreeAut::IntersectionBU(a, b, ppm);
 #endif
-  CHECK((U::decode<NR>(res, R)), 1);
-  checkIsectLanguage(A, B, P, R);
 #if MAPS
   // read the product map: pair (p, q) is product state p * NB + q of the reference product P
-  bool has[NA * NB]; unsigned val[NA * NB]; bool keysOk = true;
-  for (unsigned s = 0; s < NA * NB; ++s) { has[s] = false; val[s] = NONE; }
+  bool has[NR]; unsigned long names[NR]; bool keysOk = true;
+  for (unsigned s = 0; s < NR; ++s) { has[s] = false; names[s] = NONE; }
   for (const auto& kv : pm) { bool in = false;
-    for (unsigned s = 0; s < NA * NB; ++s) { bool e = (kv.first.first == s / NB) & (kv.first.second == s % NB); has[s] = has[s] | e; val[s] = e ? (unsigned)kv.second : val[s]; in = in | e; }
+    for (unsigned s = 0; s < NR; ++s) { bool e = (kv.first.first == s / NB) & (kv.first.second == s % NB); has[s] = has[s] | e; names[s] = e ? (unsigned long)kv.second : names[s]; in = in | e; }
     keysOk = keysOk & in; }
-  CHECK(keysOk, 2);
-  for (unsigned s = 0; s < NA * NB; ++s) CHECK(!has[s] || val[s] < NR, 6);
-  for (unsigned s = 0; s < NA * NB; ++s) for (unsigned t = s + 1; t < NA * NB; ++t) CHECK(!(has[s] && has[t]) || val[s] != val[t], 10);
-  // every state of the result is named by the map
-  { unsigned usedR = U::usedStates(R), named = 0; for (unsigned s = 0; s < NA * NB; ++s) for (unsigned r = 0; r < NR; ++r) named |= (unsigned)(has[s] & (val[s] == r)) << r;
-    CHECK((usedR & ~named) == 0, 12); }
-  // the result is exactly the part of the product P that the named pairs induce, renamed through the map
-  { SR E; U::clear(E); SP Pd = P;
-    for (unsigned i = 0; i < Pd.nrules; ++i) { U::Rule r = U::Univ<NA * NB>::rule(i); bool in = has[r.parent]; for (unsigned k = 0; k < r.rank; ++k) in = in & has[r.child[k]]; Pd.pres[i] = Pd.pres[i] & in; }
-    for (unsigned s = 0; s < NA * NB; ++s) Pd.fin[s] = Pd.fin[s] & has[s];
-    U::imageAdd<NA * NB, NR>(Pd, val, E);
-#ifdef VS_SELFTEST_2
-    E.pres[0] = false;
+  CHECK((U::decode<NR>(res, R, names)), 1);          // every rule / final state of the result is over states the map names (and universe symbols)
+#else
+  U::Slots<NR> slots; CHECK((U::decodeFree<NR>(res, R, slots)), 1);   // at most NA * NB distinct states, any numbering
 #endif
-    CHECK((U::sameAut<NR>(R, E)), 13); }
+  checkIsectLanguage(A, B, P, R);
+#if MAPS
+  CHECK(keysOk, 2);                                   // the map names pairs of operand states only
+  // no two pairs share a state of the result
+  checkNamesDistinct<NR>(R, names, NR);
+  // every rule / final state of the result is a rule / final state of the product of the pairs that name it.  NOT demanded:
+  // that every product rule among the named pairs is present (the language checks 20..22 decide what must be there).
+  { SP X = P;
+#ifdef VS_SELFTEST_2
+    X.pres[0] = false;           // seeded wrong expectation: the first rule of the product is declared foreign
+#endif
+    CHECK((subAut<NR>(R, X)), 13); }
+#ifdef STRICT_IMPL   // never defined: details of the current implementations (dense numbering, complete induced sub-product)
+  for (unsigned s = 0; s < NR; ++s) CHECK(!has[s] || names[s] < NDENSE, 6);
+  { SP Pd = P;
+    for (unsigned i = 0; i < Pd.nrules; ++i) { U::Rule r = U::Univ<NA * NB>::rule(i); bool in = has[r.parent]; for (unsigned k = 0; k < r.rank; ++k) in = in & has[r.child[k]]; Pd.pres[i] = Pd.pres[i] & in; }
+    for (unsigned s = 0; s < NR; ++s) Pd.fin[s] = Pd.fin[s] & has[s];
+    CHECK((U::sameAut<NR>(R, Pd)), 13); }
+#endif
 #endif
 #endif
 
